@@ -578,9 +578,28 @@ class Inliner:
     def _block(self, stmts, func, depth):
         out = []
         skip = None
+        stmts = list(stmts)
         for i, st in enumerate(stmts):
             if st is skip:
                 continue
+            # `d.update(self.__pairs(...))` with a generator helper: the loop dict.update() runs over the pairs, written out
+            if isinstance(st, ast.Expr) and isinstance(st.value, ast.Call) and isinstance(st.value.func, ast.Attribute) and st.value.func.attr == "update" \
+                    and isinstance(st.value.func.value, ast.Name) and len(st.value.args) == 1 and not st.value.keywords \
+                    and isinstance(st.value.args[0], ast.Call) and depth < self.max_depth:
+                hg = self.resolve(st.value.args[0], func)
+                if hg is not None and hg is not func and _is_generator(hg):
+                    self.seq += 1
+                    k_, v_ = "key_%d" % self.seq, "val_%d" % self.seq
+                    loop = ast.For(target=ast.Tuple(elts=[ast.Name(id=k_, ctx=ast.Store()), ast.Name(id=v_, ctx=ast.Store())], ctx=ast.Store()),
+                                   iter=st.value.args[0],
+                                   body=[ast.Assign(targets=[ast.Subscript(value=ast.Name(id=st.value.func.value.id, ctx=ast.Load()),
+                                                                           slice=ast.Name(id=k_, ctx=ast.Load()), ctx=ast.Store())],
+                                                    value=ast.Name(id=v_, ctx=ast.Load()))], orelse=[])
+                    ast.copy_location(loop, st)
+                    ast.fix_missing_locations(loop)
+                    relink(loop, getattr(st, "_parent", None))
+                    st = loop
+                    stmts[i] = loop
             call, mode = self._site(st)
             h = self.resolve(call, func) if call is not None and depth < self.max_depth else None
             if h is None and mode == "expr" and depth < self.max_depth:
